@@ -47,6 +47,8 @@ def f32(x):
 
 
 def f32_step(x, up):
+    if not (0.0 < x < 3e38):
+        return x
     b = struct.unpack("<I", struct.pack("<f", x))[0]
     b += 1 if up else -1
     return struct.unpack("<f", struct.pack("<I", b))[0]
@@ -144,7 +146,7 @@ def gen_X(rng, n):
 
 
 def gen_r(rng, n, nvals):
-    fam = rng.choice(["grid", "grid", "k_over_n", "multiple", "tiny", "uniform"])
+    fam = rng.choice(["grid", "grid", "k_over_n", "k_over_n", "multiple", "multiple", "tiny", "uniform"])
     if fam == "grid":
         r = f32(rng.choice(GRID))
     elif fam == "k_over_n":
@@ -319,24 +321,12 @@ def judge(case, runs, val):
     if not good:
         return viol, info
     first = sorted(good)[-1] if "N" not in good else "N"
-    if not rows_ok:
-        q, idx = py_sampled(case["X"], case["r"])
-        viol.append(("uses, for each distinct target value, only the first floor(floor(r*n)/#values) rows carrying that value",
-                     "run %s: stratified_subsampling returned %d rows %s..., C04_check = false; model: quota %d, %d rows, X' = %s..." % (
-                         first, len(good[first]["xs"]), good[first]["xs"][:12], quota, nsampled, [case["X"][i] for i in idx][:12])))
     for m, r in sorted(good.items()):
         if (r["ys"], r["xs"]) != (good[first]["ys"], good[first]["xs"]):
             viol.append(("never reads uninitialised memory / same result in every process",
                          "sampled arrays differ between run %s (poison %s) and run %s (poison %s): %s vs %s" % (
                              m, poison_of(case, m), first, poison_of(case, first), r["xs"][-6:], good[first]["xs"][-6:])))
             break
-    for m, r in sorted(good.items()):
-        s = num(r["score"])
-        if not math.isfinite(s):
-            viol.append(("returns a finite score", "run %s: score %r" % (m, r["score"])))
-        elif abs(s - mscore) > tol:
-            viol.append(("score = estimator on the sampled rows with the original stratum weights, scaled by r",
-                         "run %s (poison %s): score %.9g, model %.9g, tolerance %.3g" % (m, poison_of(case, m), s, mscore, tol)))
     fin = {m: num(r["score"]) for m, r in good.items() if math.isfinite(num(r["score"]))}
     ms = sorted(fin)
     for i in range(len(ms)):
@@ -349,6 +339,18 @@ def judge(case, runs, val):
         else:
             continue
         break
+    if not rows_ok:
+        q, idx = py_sampled(case["X"], case["r"])
+        viol.append(("uses, for each distinct target value, only the first floor(floor(r*n)/#values) rows carrying that value",
+                     "run %s: stratified_subsampling returned %d rows %s..., C04_check = false; model: quota %d, %d rows, X' = %s..." % (
+                         first, len(good[first]["xs"]), good[first]["xs"][:12], quota, nsampled, [case["X"][i] for i in idx][:12])))
+    for m, r in sorted(good.items()):
+        s = num(r["score"])
+        if not math.isfinite(s):
+            viol.append(("returns a finite score", "run %s: score %r" % (m, r["score"])))
+        elif abs(s - mscore) > tol:
+            viol.append(("score = estimator on the sampled rows with the original stratum weights, scaled by r",
+                         "run %s (poison %s): score %.9g, model %.9g, tolerance %.3g" % (m, poison_of(case, m), s, mscore, tol)))
     if case.get("Y2") is not None and hyp:
         for m, r in sorted(good.items()):
             if "score2" not in r:
@@ -379,13 +381,31 @@ def evaluate(cases, fresh=(), max_respawn=4):
         good = {m: r for m, r in runs.items() if r and "score" in r}
         first = None if not good else ("N" if "N" in good else sorted(good)[-1])
         exprs.append(coq_expr(c, None if first is None else (good[first]["ys"], good[first]["xs"])))
-    shard = max(4, min(30, -(-len(exprs) // 14)))
-    vals = vlib.coq_eval("C04", HEADER, exprs, shard=shard, jobs=14)
+    vals = balanced_eval(exprs, [len(c["X"]) for c in cases])
     out = []
     for c, runs, v in zip(cases, res, vals):
         viol, info = judge(c, runs, v)
         out.append({"viol": viol, "info": info, "runs": runs})
     return out
+
+
+def balanced_eval(exprs, weights, jobs=14):
+    """vlib.coq_eval over shards of similar cost (big cases dealt round-robin), results back in input order"""
+    from concurrent.futures import ThreadPoolExecutor
+    nb = max(1, min(jobs, -(-len(exprs) // 3)))
+    order = sorted(range(len(exprs)), key=lambda i: -weights[i])
+    bins = [order[b::nb] for b in range(nb)]
+    bins = [b for b in bins if b]
+
+    def one(kb):
+        k, b = kb
+        return vlib.coq_eval("C04s%d" % k, HEADER, [exprs[i] for i in b], shard=len(b), jobs=1)
+    vals = [None] * len(exprs)
+    with ThreadPoolExecutor(max_workers=jobs) as ex:
+        for b, vs in zip(bins, ex.map(one, enumerate(bins))):
+            for i, v in zip(b, vs):
+                vals[i] = v
+    return vals
 
 
 def shrink(rng, case, budget=5):
@@ -434,7 +454,7 @@ def check(run, replay):
         fresh = [0]
     else:
         cases = load_corpus()
-        ngen = 150 if run.tier == "quick" else 1500
+        ngen = 260 if run.tier == "quick" else 1500
         for _ in range(ngen):
             cases.append(gen_case(run.rng, run.tier))
         if run.tier == "thorough":
@@ -495,7 +515,7 @@ def check(run, replay):
                     rc, viol, info, runs = sc, e2["viol"], e2["info"], e2["runs"]
         brief = {m: ({k: (v if k not in ("ys", "xs") else v[:40]) for k, v in r.items()} if r else r) for m, r in runs.items()}
         run.violation("counterexample", "C04 correspondence (model = code on sampled rows and score; runs agree)",
-                      case=rc, impl=brief, model=info, clause="; ".join("%s — %s" % v for v in viol[:4]))
+                      case=rc, impl=brief, model=info, clause="; ".join("%s — %s" % v for v in viol[:6]))
     if failing:
         run.obligations[-1] = (run.obligations[-1][0], False, "%d of %d cases fail" % (len(failing), len(cases)))
     run.cov["input_distribution"] = {k: (dict(sorted(v.items())) if isinstance(v, dict) else int(v)) for k, v in hist.items()}
